@@ -13,6 +13,8 @@ def run(ctx):
     if ctx.replay:
         scens = [json.load(open(ctx.replay))["replay"]["scenario"]]
     else:
+        # design level, unbounded: the four requirements on the invocation history for any number of targets (TLAPS)
+        ctx.tlaps("DialPolicyProof", deps=("DialPolicy",), theorem="Spec => [](NeverWithoutECH /\\ CallerECHKept /\\ FromOwnRecord /\\ ServerNameFromCaller) for every n, records, scripts, interleaving")
         ctx.mc("DialPolicy", "MCDialPolicy.cfg" if ctx.quick else "MCDialPolicy3.cfg", timeout=1200)
         scens = ctx.emit("DialPolicyScen", "DialPolicyScen.cfg" if ctx.quick else "DialPolicyScen3.cfg", timeout=900)
         if ctx.quick:
